@@ -3241,11 +3241,12 @@ def dc9(m, run, rule='DC9.deep-copy-shares-nothing'):
         kv = [floats(6) for _ in range(pdim)]
         cp = pts(8, 4 if mod == 'NURBS' else 3)
         cache = {'ctrlpts': [[DEF()]], 'weights': [DEF()]} if mod == 'NURBS' else {}
-        src = Bag((mod, cname), _cache=cache, _control_points=cp, _knot_vector=kv, _degree=[2] * pdim, _control_points_size=[2] * pdim, _name='shape', _opt_data={'k': [1]},
+        src = Bag((mod, cname), _cache=cache, _control_points=cp, _knot_vector=kv, _degree=[2] * pdim, _control_points_size={1: [8], 2: [2, 4], 3: [2, 2, 2]}[pdim], _name='shape', _opt_data={'k': [1]},
                   _eval_points=[[DEF()]], _pdim=pdim, _dimension=3, _rational=(mod == 'NURBS'), _kv_normalize=True, _precision=18, _id=2, _array_type=None, _delta=[0.1] * pdim,
-                  _bounding_box=[], _control_points2D=[[cp[0], cp[1]], [cp[2], cp[3]]], _evaluator=None, _trims=[], _geometry_type='x', _iter_index=0, _idt={}, _span_func=None,
+                  _bounding_box=[], _control_points2D=[cp[0:4], cp[4:8]] if pdim == 2 else [], _evaluator=None, _trims=[], _geometry_type='x', _iter_index=0, _idt={}, _span_func=None,
                   _insert_knot_func=None, _remove_knot_func=None, _tsl_component={'vertices': [], 'faces': []}, _vis_component={'figure': []})
-        # (_id = 2 is also a degree: a memo entry for a small integer would replace every equal integer; the 2-D view holds the very point lists of the flat array)
+        # (_id = 2 is also a degree: a memo entry for a small integer would replace every equal integer; the 2-D view of the 2 x 4 surface net
+        # holds the very point lists of the flat array, point (u, v) at v + 4 u)
         sk = SK(m, dict(STD_ABSTRACTED))
         key = '%s.%s.__deepcopy__ (defined in %s)' % (mod, cname, fi.key)
         why = None
@@ -3287,7 +3288,7 @@ def dc9(m, run, rule='DC9.deep-copy-shares-nothing'):
                         alias_s = sorted(sorted(v) for v in ps_.values() if len(v) > 1)
                         alias_c = sorted(sorted(v) for v in pc_.values() if len(v) > 1)
                         if diff:
-                            why = 'attribute %s of the copy does not have the content of the source (a memo entry keyed by the id of a shared value replaces every equal value)' % diff[0]
+                            why = 'attribute %s of the copy does not have the content of the source (a memo entry keyed by the id of a shared value replaces every equal value, or a view is rebuilt in another order)' % diff[0]
                         elif alias_s != alias_c:
                             lost = next((a for a in alias_s if a not in alias_c), None)
                             why = ('in the source %s are one object, in the copy they are separate objects: an edit through one view no longer reaches the other'
